@@ -42,3 +42,9 @@ func VerifDoTrim(w Wal) error {
 	}
 	return tr.doTrim()
 }
+
+// VerifOpenReadOnlySegment opens the read-only segment with the given base offset in a wal directory, as the
+// read-only segments group does (verification harness only).
+func VerifOpenReadOnlySegment(walPath string, baseOffset int64) (ReadOnlySegment, error) {
+	return newReadOnlySegment(walPath, baseOffset)
+}
